@@ -6,7 +6,7 @@
 From Coq Require Import List ZArith NArith QArith String Ascii Bool Permutation.
 From Qryn Require Import lib.Strs model.Sql model.Logql model.LogqlRegexp model.LogqlPlan model.SqlEval model.LogqlSem model.LogqlSemCheck
   proofs.SqlEvalProofs proofs.LogqlSemProofs proofs.LogqlSemCheckProofs proofs.LogqlRegexpProofs proofs.LogqlSem2Base proofs.LogqlSem2Proofs
-  model.LogqlSemZone proofs.LogqlSemZoneProofs proofs.LogqlSemReexecProofs.
+  model.LogqlSemZone proofs.LogqlSemZoneProofs proofs.LogqlSemReexecProofs proofs.LogqlSemUnfinProofs.
 (* RG : ReGroups is the extraction oracle of the regexp stage (model/SqlEval.v); it is an implicit (type class) argument of
    the evaluator and of the reference semantics, universally quantified in every theorem below that names it; a statement
    that does not name it is about the default instance no_groups (no regexp stage can be evaluated). *)
@@ -475,3 +475,51 @@ Example reused_statement_witness :
         /\ option_map (map row_out) (eval no_re no_float no_json no_hash tie_id (to_sqldb r_c2 r_db) sel) = Some [Some (r_out 1 "n=1"); Some (r_out 4 "n=2")]
         /\ log_rows2 no_re no_float no_json no_hash r_query r_c2 r_db = [r_out 11 "n=3"]).
 Proof. split; [exact r_guards|]. split; [exact (proj2 r_own_answers)|exact r_stale_answer]. Qed.
+
+(* ---------- round 8: the configuration branch ctx.CHFinalize (planner_main_finalizer.go) ----------
+   Every theorem above asks `c_finalize c = true` through ctx_ok: the reader's services set the flag. MainFinalizerPlanner.Process
+   begins `if !ctx.CHFinalize { return req, nil }`: a PlannerContext built without the flag (its zero value) makes
+   Plan(script, true).Process return the select UNDER the outermost one - five columns (timestamp_ns, fingerprint, labels,
+   string, value), ORDER BY timestamp_ns, LIMIT, no `prefinal`. ctx_ok_any is ctx_ok without the demand on the flag.
+   The statement selects exactly the matching lines for EITHER value of the flag, for every query of the three fragments
+   (reference logql_sem3: on pipelines without line_format it is logql_sem2, on filters logql_sem), under the same hypotheses
+   as logql_log_partial / _parsers / line_format. Proof: no planner below the root reads the flag (process_fin_irrel, induction
+   over the planner object; plan_log_nofin), so the statement without the flag is the operand of the outermost select with it
+   (log_select_unfin), and that operand already evaluates to rows that read back as the reference answer (log_plan_inner,
+   log_plan2_inner). The check drives the real planners with CHFinalize = false (class `unfinalized` of logqlsem). *)
+Theorem logql_log_correct_any_finalize :
+  forall (RG : ReGroups) re_match parse_float json_get hash_labels (tie : forall A : Type, list A -> list A),
+    (forall A (l : list A), Permutation (tie A l) l) ->
+    forall q c d, in_fragment q || in_fragment2 q || in_fragment3 q = true -> oracle_ok re_match parse_float q ->
+    ctx_ok_any c = true ->
+    db_ok c d -> width_guard q = true -> absent_guard re_match q d ->
+    log_correct3 re_match parse_float json_get hash_labels tie q c d.
+Proof. exact logql_log_correct_any_finalize_proof. Qed.
+Print Assumptions logql_log_correct_any_finalize.
+
+(* the flag is the ONLY thing the statement without it lacks: it is the FROM operand of the statement with it *)
+Theorem unfinalized_statement_is_the_operand :
+  forall q c sel, c_finalize c = false -> log_select q (set_fin c true) = Some sel ->
+    exists req, log_select q c = Some req /\ sel = final_select (set_fin c true) req.
+Proof. exact log_select_unfin. Qed.
+Print Assumptions unfinalized_statement_is_the_operand.
+
+(* no planner below MainFinalizerPlanner reads ctx.CHFinalize (any planner object, log or metric side) *)
+Theorem only_the_finalizer_reads_the_flag :
+  forall p c b st, nofin p = true -> process p (set_fin c b) st = process p c st.
+Proof. exact process_fin_irrel. Qed.
+Print Assumptions only_the_finalizer_reads_the_flag.
+
+(* the hypotheses are met with the flag NOT set (ctx_ok fails, ctx_ok_any holds): the query of partial_parsers_guards_met,
+   limit 1, forward, cluster names; the statement has the five columns of the operand and evaluates to the surviving line *)
+Example unfinalized_witness :
+  in_fragment ex2_query || in_fragment2 ex2_query || in_fragment3 ex2_query = true /\ oracle_ok no_re no_float ex2_query
+  /\ ctx_ok_any ex_ctx_unfin = true /\ c_finalize ex_ctx_unfin = false /\ ctx_ok ex_ctx_unfin = false /\ db_ok ex_ctx_unfin ex2_db
+  /\ width_guard ex2_query = true /\ absent_guard no_re ex2_query ex2_db
+  /\ match log_select ex2_query ex_ctx_unfin with
+     | Some sel => (map col_name (s_cols sel),
+                    option_map (map row_out) (eval no_re no_float ex2_json ex2_hash tie_id (to_sqldb ex_ctx_unfin ex2_db) sel))
+     | None => ([], None) end
+     = (["timestamp_ns"; "fingerprint"; "labels"; "string"; "value"],
+        Some [Some {| o_fp := 102; o_labels := [("lvl", "info"); ("m", "ok")]; o_line := ex2_line; o_ts := 1700000000000000005 |}]).
+Proof. exact unfinalized_guards_met. Qed.
